@@ -77,18 +77,50 @@ CompSizeAt(path) == CompLay[CompIdx(path)][2]
 Since(e) == IF e.since < 0 THEN 0 ELSE e.since        \* sinceVersion defaults to 0
 
 \* minValue / maxValue / nullValue of the primitive types (SBE 1.0, 2.4.x);
-\* exact decimal text.  float/double: maxValue = largest finite value (text
-\* as printed by "%g"), nullValue = NaN; their numeric minValue is not
-\* pinned down by the standard's table -> left out ("").
+\* exact decimal text.  float/double: maxValue = largest finite value (C99
+\* hexfloat text, see FpText), nullValue = NaN; their numeric minValue is
+\* not pinned down by the standard's table -> left out ("").
 DefMin == [char |-> "32", int8 |-> "-127", uint8 |-> "0", int16 |-> "-32767", uint16 |-> "0",
            int32 |-> "-2147483647", uint32 |-> "0", int64 |-> "-9223372036854775807", uint64 |-> "0",
            float |-> "", double |-> ""]
 DefMax == [char |-> "126", int8 |-> "127", uint8 |-> "254", int16 |-> "32767", uint16 |-> "65534",
            int32 |-> "2147483647", uint32 |-> "4294967294", int64 |-> "9223372036854775807",
-           uint64 |-> "18446744073709551614", float |-> "3.40282e+38", double |-> "1.79769e+308"]
+           uint64 |-> "18446744073709551614", float |-> "0x1.fffffep+127", double |-> "0x1.fffffffffffffp+1023"]
 DefNull == [char |-> "0", int8 |-> "-128", uint8 |-> "255", int16 |-> "-32768", uint16 |-> "65535",
             int32 |-> "-2147483648", uint32 |-> "4294967295", int64 |-> "-9223372036854775808",
             uint64 |-> "18446744073709551615", float |-> "nan", double |-> "nan"]
+
+\* The IEEE-754 value an XML Schema float/double lexeme denotes (round to
+\* nearest even), as exact text: "nan", "inf", "-inf" or C99 hexfloat with
+\* the sign of zero preserved (the notation printf("%a") gives for the
+\* value).  <<binary32, binary64>>.  A fixed table: TLC has no reals; a
+\* lexeme that is not listed yields "" and the trait is left out.
+FpLex(lex) ==
+  CASE lex = "-INF" -> <<"-inf", "-inf">>
+    [] lex = "INF" -> <<"inf", "inf">>
+    [] lex = "+INF" -> <<"inf", "inf">>
+    [] lex = "NaN" -> <<"nan", "nan">>
+    [] lex = "-0.0" -> <<"-0x0p+0", "-0x0p+0">>
+    [] lex = "0" -> <<"0x0p+0", "0x0p+0">>
+    [] lex = "1e-3" -> <<"0x1.0624dep-10", "0x1.0624dd2f1a9fcp-10">>
+    [] lex = "-1.5E+10" -> <<"-0x1.bf08ecp+33", "-0x1.bf08ebp+33">>
+    [] lex = "3" -> <<"0x1.8p+1", "0x1.8p+1">>
+    [] lex = "-2.5" -> <<"-0x1.4p+1", "-0x1.4p+1">>
+    [] lex = "1024" -> <<"0x1p+10", "0x1p+10">>
+    [] lex = "-1" -> <<"-0x1p+0", "-0x1p+0">>
+    [] lex = "+1.25" -> <<"0x1.4p+0", "0x1.4p+0">>
+    [] lex = ".5" -> <<"0x1p-1", "0x1p-1">>
+    [] lex = "5." -> <<"0x1.4p+2", "0x1.4p+2">>
+    [] lex = "0.1" -> <<"0x1.99999ap-4", "0x1.999999999999ap-4">>
+    [] lex = "3.4028234663852886e+38" -> <<"0x1.fffffep+127", "0x1.fffffep+127">>
+    [] lex = "-3.4028234663852886e+38" -> <<"-0x1.fffffep+127", "-0x1.fffffep+127">>
+    [] lex = "1.17549435e-38" -> <<"0x1p-126", "0x1.fffffff9fdba8p-127">>
+    [] lex = "1.7976931348623157e+308" -> <<"", "0x1.fffffffffffffp+1023">>     \* not a binary32 value
+    [] lex = "-1.7976931348623157e+308" -> <<"", "-0x1.fffffffffffffp+1023">>
+    [] lex = "2.2250738585072014e-308" -> <<"", "0x1p-1022">>
+    [] OTHER -> <<"", "">>
+IsFp(p) == p \in {"float", "double"}
+FpText(p, lex) == FpLex(lex)[IF p = "float" THEN 1 ELSE 2]
 
 \* documented C++ type of the numeric traits (sbepp.hpp: offset_t, length_t,
 \* version_t, block_length_t = uint64; schema_id_t, message_id_t = uint32;
@@ -117,11 +149,13 @@ Kinds(k) == T("tag_kinds", k)          \* exactly one tag-kind predicate holds
 (* encodings: the part of the traits a <ref> shares with its target *)
 HasMinMax(t) == t.length = 1 /\ t.presence # "constant"
 HasNull(t) == t.length = 1 /\ t.presence = "optional"
-\* explicit text is compared verbatim (schemas give integers in canonical
-\* decimal and floats in a form "%g" reproduces); explicit values of char
-\* types are left out
+\* explicit integers are compared verbatim (schemas give them in canonical
+\* decimal), explicit float/double lexemes through FpText; explicit values of
+\* char types are left out
 Val3(t, explicit, def) ==
-  IF explicit # "" THEN (IF t.prim = "char" THEN "" ELSE explicit) ELSE def[t.prim]
+  IF explicit # ""
+  THEN (IF t.prim = "char" THEN "" ELSE IF IsFp(t.prim) THEN FpText(t.prim, explicit) ELSE explicit)
+  ELSE def[t.prim]
 MinMaxNull(t) ==
   T("has_min_value", Bool(HasMinMax(t))) \o T("has_max_value", Bool(HasMinMax(t)))
   \o T("has_null_value", Bool(HasNull(t)))
@@ -260,13 +294,23 @@ FieldValueType(f) ==
                  T("value_type_form", "template") \o T("value_type", "tag:" \o tp)
                  \o T("has_value_type_tag", "true") \o T("value_type_tag", tp)
 
+\* "Constant accessors are represented via static functions. Non-array
+\* constants return directly underlying value": the value of a float/double
+\* constant is the one its XML lexeme denotes
+FpConstant(f) ==
+  IF IsPrim(f.type) THEN <<>>
+  ELSE LET t == TypeNamed(f.type)
+       IN Opt(t.kind = "type" /\ t.presence = "constant" /\ t.length = 1 /\ IsFp(t.prim)
+              /\ t.const # "" /\ FpText(t.prim, t.const) # "",
+              T("constant_value", FpText(t.prim, t.const)))
+
 FieldEnt(L, k, path, off) ==
   LET f == L.fields[k]
   IN Ent(Append(path, f.name), "field", "field",
          Own(f) \o Desc(f) \o T("id", Str(f.id)) \o T("rt_id", "uint16")
          \o Opt(ActualPresence(f) # "", T("presence", ActualPresence(f)))
          \o Opt(off >= 0, T("has_offset", "true") \o T("offset", Str(off)) \o RtOffset)
-         \o FieldValueType(f) \o Kinds("field"))
+         \o FieldValueType(f) \o FpConstant(f) \o Kinds("field"))
 
 DataEnt(d, path) ==
   LET p == Append(path, d.name)
